@@ -4,6 +4,8 @@
 package flow
 
 import (
+	"go/types"
+
 	"golang.org/x/tools/go/ssa"
 )
 
@@ -60,6 +62,113 @@ type Fact struct {
 }
 
 func FactsAt(x *ssa.BasicBlock) []Fact {
+	return refine(expand(rawFactsAt(x), 0))
+}
+
+// refine: a fact on a bool phi that expand could not resolve (several edges
+// could have delivered that truth value) is resolved when all but one of those
+// edges contradict the other facts already known (e.g. `a && b` is false and a
+// is known true: then b is false).
+func refine(fs []Fact) []Fact {
+	for iter := 0; iter < 4; iter++ {
+		added := false
+		for _, f := range fs {
+			phi, ok := f.Cond.(*ssa.Phi)
+			if !ok {
+				continue
+			}
+			if b, isB := phi.Type().Underlying().(*types.Basic); !isB || b.Kind() != types.Bool {
+				continue
+			}
+			var cands []int
+			for i, e := range phi.Edges {
+				if c, isC := e.(*ssa.Const); isC && c.Value != nil {
+					if (c.Value.String() == "true") != f.True {
+						continue // this edge delivers the other truth value
+					}
+				}
+				if ContradictFacts(rawEdgeFacts(phi.Block().Preds[i], phi.Block()), fs) {
+					continue
+				}
+				cands = append(cands, i)
+			}
+			if len(cands) != 1 {
+				continue
+			}
+			i := cands[0]
+			extra := []Fact{}
+			if _, isC := phi.Edges[i].(*ssa.Const); !isC {
+				extra = append(extra, Fact{phi.Edges[i], f.True, f.If})
+			}
+			extra = append(extra, rawEdgeFacts(phi.Block().Preds[i], phi.Block())...)
+			for _, e := range expand(extra, 0) {
+				dup := false
+				for _, o := range fs {
+					if o.Cond == e.Cond && o.True == e.True {
+						dup = true
+					}
+				}
+				if !dup {
+					fs = append(fs, e)
+					added = true
+				}
+			}
+		}
+		if !added {
+			break
+		}
+	}
+	return fs
+}
+
+// expand adds what a fact on a short-circuit phi implies: `a && b` is a phi
+// with constant false on every edge but one, so "phi is true" means control
+// came along that one edge (all facts of that edge hold) and its value is true;
+// dually for `a || b` being false.  `!a` facts are normalised to facts on a.
+func expand(fs []Fact, depth int) []Fact {
+	if depth > 4 {
+		return fs
+	}
+	out := append([]Fact{}, fs...)
+	for _, f := range fs {
+		if u, ok := f.Cond.(*ssa.UnOp); ok && u.Op.String() == "!" {
+			out = append(out, expand([]Fact{{u.X, !f.True, f.If}}, depth+1)...)
+			continue
+		}
+		phi, ok := f.Cond.(*ssa.Phi)
+		if !ok {
+			continue
+		}
+		want := "false" // for a true && : the other edges are constant false
+		if !f.True {
+			want = "true"
+		}
+		var live []int
+		okShape := true
+		for i, e := range phi.Edges {
+			if c, isC := e.(*ssa.Const); isC && c.Value != nil && c.Value.String() == want {
+				continue
+			}
+			if c, isC := e.(*ssa.Const); isC && c.Value != nil {
+				_ = c
+				okShape = false // a constant of the polarity we hold: tells nothing
+				continue
+			}
+			live = append(live, i)
+		}
+		if !okShape || len(live) != 1 {
+			continue
+		}
+		i := live[0]
+		pred := phi.Block().Preds[i]
+		extra := []Fact{{phi.Edges[i], f.True, f.If}}
+		extra = append(extra, rawEdgeFacts(pred, phi.Block())...)
+		out = append(out, expand(extra, depth+1)...)
+	}
+	return out
+}
+
+func rawFactsAt(x *ssa.BasicBlock) []Fact {
 	var out []Fact
 	fn := x.Parent()
 	for _, b := range fn.Blocks {
@@ -320,7 +429,11 @@ func Index(in ssa.Instruction) int {
 
 // EdgeFacts lists the facts that hold when control moves along pred->succ.
 func EdgeFacts(pred, succ *ssa.BasicBlock) []Fact {
-	out := FactsAt(pred)
+	return refine(expand(rawEdgeFacts(pred, succ), 0))
+}
+
+func rawEdgeFacts(pred, succ *ssa.BasicBlock) []Fact {
+	out := rawFactsAt(pred)
 	if len(pred.Instrs) > 0 {
 		if iff, ok := pred.Instrs[len(pred.Instrs)-1].(*ssa.If); ok && len(pred.Succs) == 2 && pred.Succs[0] != pred.Succs[1] {
 			if pred.Succs[0] == succ {
